@@ -319,7 +319,6 @@ func (r *Run) Finish() int {
 	return 0
 }
 
-
 // ---- shard export / import (child processes of one check) ----
 
 type shardState struct {
